@@ -2,8 +2,9 @@
 # runall.sh [tier] : run every registered check sequentially, print the summary lines
 tier=${1:-quick}
 cd "$(dirname "${BASH_SOURCE[0]}")/.."
+./setup.sh >/dev/null 2>&1   # hypothesis in /venv, atheris under .deps (not part of a committed snapshot)
 for id in $(python3-vt -c "import json; print(' '.join(c['property_id'] for c in json.load(open('MANIFEST.json'))['checks']))"); do
   out=$(./check $id --tier $tier 2>&1); rc=$?
   echo "$(echo "$out" | grep -E "^C[0-9]+ tier" | tail -1) rc=$rc"
-  echo "$out" | grep -E "^(VIOLATION|HARNESS|KNOWN)" | cut -c1-200 | head -5
+  echo "$out" | grep -E "^(VIOLATION|HARNESS|KNOWN|  bucket)" | cut -c1-200 | head -12
 done
